@@ -164,6 +164,7 @@ Proof.
   - destruct n, is_query; fin.
   - subst v. destruct tmp; fin.
   - subst v. destruct tmp; fin.
+  - destruct v; fin.
 Qed.
 
 Theorem guards_d_exact : forall s c k, wf_d s c = true ->
